@@ -191,11 +191,17 @@ def boson_search(chk, n_cases):
         else:
             par = oqupy.TempoParameters(dt=dt, epsrel=eps, dkmax=dkmax, add_correlation_time=tau)
         bath = oqupy.Bath(O, corr)
-        info = {"d": d, "o": list(o), "corr": ck, "T": T, "dt": dt, "n": n, "dkmax": dkmax, "tau_add": tau, "rotated": not np.allclose(V, np.eye(d))}
+        unique = rng.random() < 0.5 if it >= 2 else True          # both degeneracy settings
+        if it < 2:
+            V = haar(rng, d)                                        # every run: degeneracy checking with a rotated (complex) basis
+            O = V @ np.diag(o) @ V.conj().T
+            H = V @ np.diag(E) @ V.conj().T
+            bath = oqupy.Bath(O, corr)
+        info = {"d": d, "o": list(o), "corr": ck, "T": T, "dt": dt, "n": n, "dkmax": dkmax, "tau_add": tau, "rotated": not np.allclose(V, np.eye(d)), "unique": unique}
         try:
-            t = oqupy.Tempo(oqupy.System(H), bath, par, rho0, 0.0)
+            t = oqupy.Tempo(oqupy.System(H), bath, par, rho0, 0.0, unique=unique)
             st_t = np.array(quiet(t.compute, n * dt, progress_type="silent").states)
-            pt = quiet(oqupy.pt_tempo_compute, bath, 0.0, n * dt, parameters=par, progress_type="silent")
+            pt = quiet(oqupy.pt_tempo_compute, bath, 0.0, n * dt, parameters=par, unique=unique, progress_type="silent")
             st_p = np.array(quiet(oqupy.compute_dynamics, oqupy.System(H), initial_state=rho0, process_tensor=pt, progress_type="silent").states)
         except Exception as ex:
             chk.fail("boson-raises", f"Tempo/PtTempo raise {ex!r}", info)
